@@ -138,6 +138,26 @@ def run_mc(module, cfg, workers=8, timeout=900, expect_violation=False, heap="12
                 cex_actions=actions, action_coverage=cov, actions_never_taken=sorted(k for k, v in cov.items() if v[1] == 0), out=out)
 
 
+
+def run_proof(module, timeout=600):
+    """TLAPS: re-check every proof obligation of a module, in a scratch copy (no cache is reused)."""
+    d = workdir(f"proof_{module}_{os.getpid()}")
+    for f in os.listdir(SPEC):
+        if f.endswith(".tla"):
+            shutil.copy(f"{SPEC}/{f}", d)
+    t0 = time.time()
+    try:
+        rc, out = sh(["tlapm", "--threads", "8", "--cleanfp", module], timeout=timeout, cwd=d)
+    except subprocess.TimeoutExpired:
+        shutil.rmtree(d, ignore_errors=True)
+        raise ToolError(f"tlapm timed out on {module}")
+    shutil.rmtree(d, ignore_errors=True)
+    m = re.search(r"All (\d+) obligations? proved", out)
+    if not m:
+        log(out[-3000:])
+        raise ToolError(f"tlapm did not prove every obligation of {module}")
+    return dict(module=module, obligations_proved=int(m.group(1)), wall=round(time.time() - t0, 1), prover="tlapm (SMT, Zenon, Isabelle, PTL back ends)")
+
 RE_VIOL = re.compile(r'"(VIOL|DRIFT)\|(-?\d+)\|(-?\d+)\|(\d+)\|([^|"]*)\|([^|"]*)\|([^|"]*)"')
 
 
